@@ -302,6 +302,61 @@ def rule_G_ZERO(ctx, repo):
                      'treated as "ignore nothing", so calls that differ only in the first argument are evaluated separately' % (qual, name), '%s:%d' % (mm.rel, h.lineno))
 
 
+def _length_changing(rhs, X):
+    """does the new value of X (an expression over the old X) have another length: a slice of X, X + ..., a filtered comprehension over X"""
+    for c in ast.walk(rhs):
+        if isinstance(c, ast.Subscript) and isinstance(c.slice, ast.Slice) and isinstance(c.value, ast.Name) and c.value.id == X:
+            return True
+        if isinstance(c, ast.BinOp) and isinstance(c.op, ast.Add) and any(isinstance(x, ast.Name) and x.id == X for x in (c.left, c.right)):
+            return True
+        if isinstance(c, (ast.ListComp, ast.GeneratorExp, ast.SetComp)):
+            for g in c.generators:
+                if g.ifs and any(isinstance(x, ast.Name) and x.id == X for x in ast.walk(g.iter)):
+                    return True
+    return False
+
+
+def rule_G_STALE(ctx, repo):
+    """G-STALE (a count is not used after the sequence it counted was cut): in the binding code a local computed from len(X) is not read after X was
+    re-bound to a slice / extension / filtered copy of itself.  The boundary between named and variadic positionals, the number of required
+    parameters etc. are such counts; removing `self` from the names after the boundary was taken leaves it one too large."""
+    m = repo.mod('_inspect')
+    n = 0
+    for fname, fi in m.functions.items():
+        f = fi.node
+        events = []
+        for node in ast.walk(f):
+            if isinstance(node, ast.Assign) and len(node.targets) == 1 and isinstance(node.targets[0], ast.Name):
+                v = node.targets[0].id
+                for c in ast.walk(node.value):
+                    if isinstance(c, ast.Call) and isinstance(c.func, ast.Name) and c.func.id == 'len' and c.args and isinstance(c.args[0], ast.Name) and c.args[0].id != v:
+                        events.append(('derive', node.lineno, v, c.args[0].id))
+                if isinstance(node.value, ast.AST):
+                    events.append(('assign', node.lineno, v, node.value))
+            if isinstance(node, ast.Name) and isinstance(node.ctx, ast.Load):
+                events.append(('load', node.lineno, node.id, None))
+            if isinstance(node, ast.Name) and isinstance(node.ctx, ast.Store):
+                events.append(('store', node.lineno, node.id, None))
+        for e in [x for x in events if x[0] == 'derive']:
+            _, l1, v, X = e
+            n += 1
+            cuts = [x[1] for x in events if x[0] == 'assign' and x[2] == X and x[1] > l1 and _length_changing(x[3], X)]
+            if not cuts:
+                ctx.ob('G-STALE', None, True)
+                continue
+            l2 = min(cuts)
+            redef = [x[1] for x in events if x[0] == 'store' and x[2] == v and x[1] > l1]
+            uses = [x[1] for x in events if x[0] == 'load' and x[2] == v and x[1] > l2 and not any(l1 < r <= x[1] for r in redef)]
+            ctx.ob('G-STALE', None, not uses)
+            if uses:
+                ctx.fail('G-STALE', fi.qual, '%s = len(%s) used after %s was cut' % (v, X, X),
+                         '%s computes `%s` from len(%s) at line %d, re-binds `%s` to a shorter / longer version of itself at line %d, and still reads `%s` at line %d: '
+                         'the count no longer describes the sequence (e.g. the boundary between named and variadic positionals taken before `self` is removed is one '
+                         'too large, so the first extra positional argument escapes the \'*\' clip and stays in the key)' % (fname, v, X, l1, X, l2, v, uses[0]),
+                         '%s:%d' % (m.rel, uses[0]))
+    ctx.ob('G-STALE', 'counts derived from len() in klepto/_inspect.py examined', True, n=max(1, n))
+
+
 SPEC_FIELDS = ('args', 'defaults', 'varargs', 'varkw', 'kwonlyargs', 'kwonlydefaults')
 
 
